@@ -366,3 +366,81 @@ def bool_shape(e):
     if e.k == "bin" and e.a[0] == "BitXor":
         return "(%s ^ %s)" % (bool_shape(e.a[1]), bool_shape(e.a[2]))
     return str(e)
+
+
+# ------------------------------------------------------------------ type-aware field writes (A3a who-may-write)
+
+def _adt_of_type(prog, ty):
+    """`&'a mut path::Adt<..>` -> Adt object or None"""
+    t = ty.strip()
+    while True:
+        m = re.match(r"^&(?:'[a-z_]+ )?(?:mut )?(.*)$", t)
+        if m:
+            t = m.group(1).strip()
+            continue
+        m = re.match(r"^(?:std::boxed::Box|std::cell::RefMut|std::cell::Ref)<(?:'[a-z_]+, )?(.*)>$", t)
+        if m:
+            t = m.group(1).strip()
+            continue
+        break
+    base = re.sub(r"<.*$", "", t)
+    return prog.adts.get(base)
+
+
+def place_field_owners(prog, fn, place):
+    """For place [local, proj...]: list of (proj_index, owner_adt_id, field_name) for each field projection whose
+    owner type could be resolved through the ADT tables."""
+    out = []
+    ty = fn.locals[place[0]][0]
+    adt = _adt_of_type(prog, ty)
+    for i, p in enumerate(place[1:]):
+        if p == "*":
+            continue
+        if p.startswith(".") and adt is not None:
+            name = p[1:]
+            out.append((i, adt.id, name))
+            nxt = None
+            for v in adt.variants:
+                for f in v["fields"]:
+                    if f["name"] == name:
+                        nxt = f["ty"]
+            adt = _adt_of_type(prog, nxt) if nxt else None
+        elif p.startswith("@") or p.startswith("["):
+            if p.startswith("["):
+                adt = None
+        else:
+            adt = None
+    return out
+
+
+def writers_of_field(prog, adt_re, field, crates=None):
+    """All functions that store to (or mutably borrow) field `field` of an ADT whose id matches adt_re.
+    Returns list of dict(fn, bb, kind, line, value E|None)."""
+    out = []
+    for f in prog.fns.values():
+        if crates and f.crate not in crates:
+            continue
+        for bb, si, s in f.statements():
+            if s[0] != "=":
+                continue
+            tgt = None
+            if any(p == "." + field for p in s[1][1:]):
+                tgt = ("assign", s[1])
+            elif s[2][0] in ("ref", "rawptr") and s[2][1] in ("mut", "Mut") and any(p == "." + field for p in s[2][2][1:]):
+                tgt = ("mutborrow", s[2][2])
+            if not tgt:
+                continue
+            owners = place_field_owners(prog, f, tgt[1])
+            # the write hits `field` itself or something inside it
+            hit = [o for o in owners if o[2] == field and re.search(adt_re, o[1])]
+            if not hit:
+                continue
+            out.append({"fn": f, "bb": bb, "kind": tgt[0], "line": f.stmt_line(s),
+                        "value": f._rvalue_expr(s[2], 0, ()) if tgt[0] == "assign" else None})
+        for cs in f.calls:
+            d = cs.dest
+            if any(p == "." + field for p in d[1:]):
+                owners = place_field_owners(prog, f, d)
+                if [o for o in owners if o[2] == field and re.search(adt_re, o[1])]:
+                    out.append({"fn": f, "bb": cs.bb, "kind": "assign", "line": cs.line, "value": f._call_expr(cs, 0, ())})
+    return out
